@@ -211,6 +211,210 @@ fn run_pattern(seed: u64, pattern: Pattern, threads: u32, per_thread: u64, same_
     all
 }
 
+/// Child of the clock-jump leg: 4 long-lived threads (each with its own issuer) issue a batch, the
+/// wall clock is moved (across minute / hour / day boundaries, and BACK to instants that were
+/// already lived through), the same threads issue again, and so on. Prints every salt and decoy
+/// digest with its phase. A generator that is (re)keyed from the wall clock repeats itself here.
+pub fn clock_jump_child(seed: u64, off_file: &str) {
+    let threads = 4u32;
+    let per_phase = 6u64;
+    let now0 = api::now() as i64;
+    // offsets relative to the real clock; each is held for one phase
+    let to_boundary = |m: i64| m - now0.rem_euclid(m);
+    let offsets: Vec<i64> = vec![0, to_boundary(60), to_boundary(60) + 60, to_boundary(3600), to_boundary(86_400), 0, -1, to_boundary(60), -86_400, -31_557_600, 31_557_600, 0];
+    let barrier = Arc::new(Barrier::new(threads as usize + 1));
+    let mut handles = vec![];
+    for t in 0..threads {
+        let barrier = barrier.clone();
+        let n_phases = offsets.len();
+        handles.push(std::thread::spawn(move || {
+            let mut r = Rng::for_case(seed, STREAM + 7, t as u64);
+            let mut own = api::new_issuer(ALL_ALGS[(t % 3) as usize], 0, true);
+            let mut rows: Vec<(usize, Harvest)> = vec![];
+            for ph in 0..n_phases {
+                barrier.wait(); // clock has been set for this phase
+                let mut h = Harvest::default();
+                for i in 0..per_phase {
+                    let u = claims_for(&mut r, i % 2 == 0, t, 10 + i);
+                    let strat = gen::gen_strategy(&mut Rng(1), &u, StratKind::AllLevels);
+                    let fmt = if i % 2 == 0 { Fmt::Compact } else { Fmt::Json };
+                    // half of the credentials from the long-lived issuer, half from a fresh one
+                    let out = if i % 3 == 0 {
+                        let mut fresh = api::new_issuer(ALL_ALGS[(t % 3) as usize], 0, true);
+                        api::issue(&mut fresh, &u, &strat, None, true, fmt)
+                    } else {
+                        api::issue(&mut own, &u, &strat, None, true, fmt)
+                    };
+                    if let Outcome::Ok(s) = out {
+                        harvest_one(&s, fmt, &mut h, &|| json!({"phase": ph, "thread": t}));
+                    }
+                }
+                rows.push((ph, h));
+                barrier.wait(); // phase done
+            }
+            rows
+        }));
+    }
+    let mut phases = vec![];
+    for off in offsets.iter() {
+        let _ = std::fs::write(off_file, off.to_string());
+        let vnow = api::now();
+        barrier.wait();
+        barrier.wait();
+        phases.push(json!({"offset": off, "vnow": vnow}));
+    }
+    let mut salts: Vec<Value> = vec![];
+    let mut decoys: Vec<Value> = vec![];
+    for hd in handles {
+        if let Ok(rows) = hd.join() {
+            for (ph, h) in rows {
+                salts.extend(h.salts.into_iter().map(|s| json!([ph, s])));
+                decoys.extend(h.decoys.into_iter().map(|s| json!([ph, s])));
+            }
+        }
+    }
+    println!("{}", json!({"real_now": now0, "phases": phases, "salts": salts, "decoys": decoys}));
+}
+
+/// Parent side of the clock-jump leg.
+fn clock_jump_leg(ctx: &Ctx, l: &mut Local, all_salts: &mut Vec<String>, all_decoys: &mut Vec<String>) -> Value {
+    let shim = format!("{}/shim/libvclock.so", ctx.verif_dir);
+    if !std::path::Path::new(&shim).exists() {
+        let src = format!("{}/shim/vclock.c", ctx.verif_dir);
+        let _ = std::process::Command::new("cc").args(["-shared", "-fPIC", "-O1", "-o", &shim, &src, "-ldl"]).status();
+    }
+    if !std::path::Path::new(&shim).exists() {
+        return json!({"status": "skipped: shim could not be built; decides nothing"});
+    }
+    let exe = match std::env::current_exe() {
+        Ok(e) => e,
+        Err(_) => return json!({"status": "skipped: own executable unknown"}),
+    };
+    let children: u64 = if ctx.tier == Tier::Quick { 2 } else { 12 };
+    let mut out_rows = vec![];
+    for c in 0..children {
+        let off_file = format!("{}/.partials/c14-vclock-offset-{}-{c}", ctx.out_dir, std::process::id());
+        let _ = std::fs::create_dir_all(format!("{}/.partials", ctx.out_dir));
+        let _ = std::fs::write(&off_file, "0");
+        let out = std::process::Command::new(&exe)
+            .args(["C14-vclock", &ctx.seed.wrapping_add(c).to_string(), &off_file])
+            .env("LD_PRELOAD", &shim)
+            .env("VCLOCK_OFFSET_FILE", &off_file)
+            .output();
+        let _ = std::fs::remove_file(&off_file);
+        let v: Option<Value> = out.ok().filter(|o| o.status.success()).and_then(|o| String::from_utf8_lossy(&o.stdout).lines().last().and_then(|l| serde_json::from_str(l).ok()));
+        let v = match v {
+            Some(v) => v,
+            None => {
+                out_rows.push(json!({"child": c, "status": "child failed; decides nothing"}));
+                continue;
+            }
+        };
+        // shim self-test: the child's clock followed the offsets it wrote
+        let real_now = v["real_now"].as_i64().unwrap_or(0);
+        let moved = v["phases"].as_array().map(|a| a.iter().filter(|p| {
+            let off = p["offset"].as_i64().unwrap_or(0);
+            (p["vnow"].as_i64().unwrap_or(0) - (real_now + off)).abs() <= 120
+        }).count()).unwrap_or(0);
+        let n_ph = v["phases"].as_array().map(|a| a.len()).unwrap_or(0);
+        if moved != n_ph || n_ph == 0 {
+            out_rows.push(json!({"child": c, "status": "shim self-test failed (clock did not follow the offsets); decides nothing"}));
+            continue;
+        }
+        let take = |key: &str| -> Vec<(u64, String)> { v[key].as_array().map(|a| a.iter().filter_map(|x| Some((x.get(0)?.as_u64()?, x.get(1)?.as_str()?.to_string()))).collect()).unwrap_or_default() };
+        let (ss, dd) = (take("salts"), take("decoys"));
+        for (name, list) in [("salt", &ss), ("decoy-digest", &dd)] {
+            let mut seen: HashMap<&String, u64> = HashMap::new();
+            for (ph, s) in list.iter() {
+                if let Some(first) = seen.get(s) {
+                    l.violate(Violation {
+                        subcheck: format!("{name}-repeats"),
+                        class: "after the wall clock was moved".into(),
+                        observed: format!("two equal {name}s in one process whose clock jumped"),
+                        case: c,
+                        detail: json!({"value": s, "first_phase": first, "second_phase": ph, "phases": v["phases"], "replay": format!("LD_PRELOAD=shim/libvclock.so VCLOCK_OFFSET_FILE=<file> sdjwt-mon C14-vclock {} <file>", ctx.seed.wrapping_add(c))}),
+                    });
+                    break;
+                }
+                seen.insert(s, *ph);
+            }
+        }
+        l.add("clock-jump.children", 1);
+        l.add("clock-jump.phases", n_ph as u64);
+        l.add("clock-jump.salts", ss.len() as u64);
+        l.add("clock-jump.decoy-digests", dd.len() as u64);
+        l.evals += (ss.len() / 20) as u64;
+        out_rows.push(json!({"child": c, "phases": v["phases"], "salts": ss.len(), "decoy_digests": dd.len()}));
+        all_salts.extend(ss.into_iter().map(|x| x.1));
+        all_decoys.extend(dd.into_iter().map(|x| x.1));
+    }
+    json!(out_rows)
+}
+
+/// Many issuer instances: salts drawn by the first 64 instances of this leg are compared with
+/// those of 64 instances created exactly 2^16, 2^20 and 2^24 instance creations later (a
+/// per-instance stream selected by a truncated instance number repeats at such distances).
+fn many_instances_leg(ctx: &Ctx, l: &mut Local, all_salts: &mut Vec<String>, all_decoys: &mut Vec<String>) -> Value {
+    let key = jsonwebtoken::EncodingKey::from_secret(b"c14-many-instances");
+    let u = json!({"iss": "https://issuer.example/A", "exp": 4_000_000_000u64, "a": 1, "b": [1, 2], "c": {"d": null}});
+    let strat = gen::gen_strategy(&mut Rng(1), &u, StratKind::AllLevels);
+    let window = |h: &mut Harvest, at: u64| {
+        for i in 0..64u64 {
+            let mut issuer = SDJWTIssuer::new(key.clone(), Some("HS256".to_string()));
+            if let Outcome::Ok(s) = api::issue(&mut issuer, &u, &strat, None, true, Fmt::Compact) {
+                harvest_one(&s, Fmt::Compact, h, &|| json!({"instances_created_before": at + i}));
+            }
+        }
+    };
+    let targets: &[u64] = if ctx.tier == Tier::Quick { &[1 << 16, 1 << 24] } else { &[1 << 16, 1 << 20, 1 << 24, 1 << 25] };
+    let mut h = Harvest::default();
+    let mut created = 0u64;
+    window(&mut h, created);
+    created += 64;
+    let t0 = Instant::now();
+    for &target in targets {
+        // fill up to `target` creations with short-lived instances on all cores (exact count)
+        let gap = target - created;
+        let workers = 16u64;
+        let mut hs = vec![];
+        for w in 0..workers {
+            let key = key.clone();
+            let quota = gap / workers + if w < gap % workers { 1 } else { 0 };
+            hs.push(std::thread::spawn(move || {
+                for _ in 0..quota {
+                    let issuer = SDJWTIssuer::new(key.clone(), Some("HS256".to_string()));
+                    std::hint::black_box(&issuer);
+                }
+            }));
+        }
+        for x in hs {
+            let _ = x.join();
+        }
+        created = target;
+        window(&mut h, created);
+        created += 64;
+    }
+    let mut seen: HashSet<&String> = HashSet::new();
+    for s in h.salts.iter().chain(h.decoys.iter()) {
+        if !seen.insert(s) {
+            l.violate(Violation {
+                subcheck: "salt-repeats".into(),
+                class: "issuer instances created far apart".into(),
+                observed: "two equal salts / decoy digests drawn by instances created a power-of-two number of instances apart".into(),
+                case: 0,
+                detail: json!({"value": s, "windows_at": targets, "instances_created": created}),
+            });
+            break;
+        }
+    }
+    l.add("many-instances.created", created);
+    l.add("many-instances.salts", h.salts.len() as u64);
+    let info = json!({"instances_created": created, "windows_of_64_at": targets, "salts": h.salts.len(), "decoy_digests": h.decoys.len(), "wall_s": t0.elapsed().as_secs_f64()});
+    all_salts.extend(h.salts);
+    all_decoys.extend(h.decoys);
+    info
+}
+
 /// (number of issuances that overlapped in time with an issuance of another thread, max in flight)
 fn overlap_stats(spans: &[(u64, u64, u32)]) -> (u64, u64) {
     let mut ev: Vec<(u64, i32, u32)> = vec![];
@@ -282,6 +486,13 @@ pub fn run(ctx: &Ctx) -> Report {
             all_decoys.extend(h.decoys);
             run_idx += 1;
         }
+    }
+    let mut leg_info = serde_json::Map::new();
+    if leg.is_empty() && ctx.only_case.is_none() {
+        let v = clock_jump_leg(ctx, &mut l, &mut all_salts, &mut all_decoys);
+        leg_info.insert("clock_jump_leg".into(), v);
+        let v = many_instances_leg(ctx, &mut l, &mut all_salts, &mut all_decoys);
+        leg_info.insert("many_instances_leg".into(), v);
     }
     l.add("salts", all_salts.len() as u64);
     l.add("decoy-digests", all_decoys.len() as u64);
@@ -360,6 +571,9 @@ pub fn run(ctx: &Ctx) -> Report {
     rep.inconclusive = inconclusive;
     rep.extra.insert("runs".into(), json!(runs));
     rep.extra.insert("bit_balance".into(), bit_info);
+    for (k, v) in leg_info {
+        rep.extra.insert(k, v);
+    }
     rep.assumptions = vec![
         "\"unpredictable\" cannot be observed; length, uniqueness across threads/instances and absence of fixed bits are decided, which is what the quantifier states".into(),
     ];
